@@ -90,8 +90,16 @@ class RectPartition(object):
         self.__cell_boundary_vecs = tuple(bdry_vecs)
 
         # Initialize nodes_on_bdry
-        left_on_bdry = np.isclose(self.grid.min_pt, self.set.min_pt)[:, None]
-        right_on_bdry = np.isclose(self.grid.max_pt, self.set.max_pt)[:, None]
+        # The tolerance is relative to the size of the domain (plus rounding
+        # errors of the coordinates), not to the coordinates themselves
+        eps = np.finfo(float).eps
+        tol = (1e-8 * self.set.extent +
+               4 * eps * np.maximum(np.abs(self.set.min_pt),
+                                    np.abs(self.set.max_pt)))
+        left_on_bdry = (np.abs(self.grid.min_pt - self.set.min_pt) <=
+                        tol)[:, None]
+        right_on_bdry = (np.abs(self.grid.max_pt - self.set.max_pt) <=
+                         tol)[:, None]
         on_bdry = np.hstack([left_on_bdry, right_on_bdry]).tolist()
         self.__nodes_on_bdry = tuple(tuple(r) for r in on_bdry)
 
